@@ -214,6 +214,11 @@ def forked(fn, scratch, timeout: float = 60.0):
     The child reports through a file, never through stdio (the workloads close / replace stdio).
     Raises ForkFailed if the child dies or the watchdog fires.
     """
+    if not getattr(forked, "counter", 0):
+        import gc
+
+        gc.collect()
+        gc.freeze()  # keep the garbage collector of the children from touching (and copying) the inherited heap
     forked.counter = getattr(forked, "counter", 0) + 1
     path = os.path.join(str(scratch), f"fork_{os.getpid()}_{forked.counter}.json")
     pid = os.fork()
